@@ -226,7 +226,7 @@ func execC25(t *testing.T, scAny any, keepLog bool) *Outcome {
 				sides[d].net.SetFilter(chainFilter{rf, f})
 			} else if sc.Reframe != nil && sc.Reframe.Dirs&(1<<uint(d)) != 0 {
 				rf := &reframe13{Suite: sc.Suite, Label: []string{"CLIENT_TRAFFIC_SECRET_0", "SERVER_TRAFFIC_SECRET_0"}[d], KeyLog: &keylog,
-					Rng: kit.NewRng(sc.Seed ^ uint64(0x13f0+d)), Rate: sc.Reframe.Rate, KeyUpdates: sc.Reframe.KeyUpdates}
+					Rng: kit.NewRng(sc.Seed ^ uint64(0x13f0+d)), Rate: sc.Reframe.Rate, KeyUpdates: sc.Reframe.KeyUpdates, Tickets: 2}
 				sides[d].reframe = rf
 				sides[d].net.SetFilter(chainFilter{rf, f})
 			}
@@ -549,7 +549,7 @@ func init() {
 		Stub:   []string{"transport (simnet)", "clock", "entropy", "PKI from fixed key pool"},
 		Assume: []string{"a read timeout or EOF after a dropped/truncated tail counts as the receiver returning an error", "for a write that straddles the disturbed record at least one of its bytes is carried by or after that record"},
 		FaultKinds: []string{"fault.flip.hdr_type", "fault.flip.hdr_vers", "fault.flip.hdr_len", "fault.flip.head", "fault.flip.body", "fault.flip.tail", "fault.flip.pad_far", "fault.drop", "fault.dup", "fault.swap", "fault.replay", "fault.trunc", "fault.trunc.hdr", "fault.insert",
-			"reframe12.long_cbc_padding", "reframe12.empty_record", "reframe12.split", "reframe.empty_record", "reframe.empty_record_padded", "reframe.padding", "reframe.split", "reframe.key_update_injected", "reframe.key_update_requested",
+			"reframe12.long_cbc_padding", "reframe12.empty_record", "reframe12.split", "reframe.empty_record", "reframe.empty_record_padded", "reframe.padding", "reframe.split", "reframe.key_update_injected", "reframe.key_update_requested", "reframe.coalesced_tickets", "reframe.ticket_flight_fragmented",
 			"net.segments", "net.short_read", "net.write_blocked_on_window", "net.read_deadline_expired", "probe.faultfree_complete", "probe.receiver_error_after_fault", "probe.tls10_cbc_split_path"},
 		NotInjected: "no storage or crash-restart exists in a TLS connection; faults before the end of the handshake belong to C32",
 		Gen:         genC25, New: func() any { return &c25Scenario{} }, Exec: execC25, Shrink: shrinkC25,
